@@ -632,7 +632,7 @@ fn geometric_layouts() -> Vec<Case> {
             }
         }
     }
-    for long in [8191u32, 8192, 8193, 20_000, 70_000] {
+    for long in [8191u32, 8192, 8193, 20_000, 70_000, 1_200_000, 2_600_000] {
         v.push(Case::TextFile { lines: vec![(0, 0), (0, long), (0, 0), (1, 0), (1, long), (2, 0)], final_newline: true, grouped: true });
         v.push(Case::TextFile { lines: vec![(0, long), (1, 0), (1, 0), (2, long)], final_newline: false, grouped: true });
     }
